@@ -782,6 +782,27 @@ def more_services(u):
     L.append(dict(name='fn_request_transfer_exit_request', params=P, result='Y', call=request(call)))
     L.append(dict(name='fn_request_transfer_exit_interpret', params=P + [('d', ('seq', 3, 1))], result='S',
                   call=interpret(call, 0x77, lambda r: [('bytes', r.service_data.parameter_records)])))
+    from udsoncan import DataFormatIdentifier, DynamicDidDefinition
+    for up in (False, True):       # request_download / request_upload with explicit 16/8-bit formats, with and without a data format identifier
+        nm = 'request_upload' if up else 'request_download'
+        m = (lambda up: lambda c, a, s: (c.request_upload if up else c.request_download)(MemoryLocation(a, s, 16, 8)))(up)
+        md = (lambda up: lambda c, a, s, cm, en: (c.request_upload if up else c.request_download)(MemoryLocation(a, s, 16, 8), DataFormatIdentifier(cm, en)))(up)
+        L.append(dict(name='fn_%s_request' % nm, params=[('a', 'Z'), ('s', 'Z')], result='Y', call=request(m)))
+        L.append(dict(name='fn_%s_dfi_request' % nm, params=[('a', 'Z'), ('s', 'Z'), ('cm', 'Z'), ('en', 'Z')], result='Y', call=request(md)))
+
+    def define1(c, did, src, pos, size):
+        d = DynamicDidDefinition()
+        d.add(source_did=src, position=pos, memorysize=size)
+        return c.dynamically_define_did(did, d)
+
+    def define2(c, did, src, pos, size, src2, pos2, size2):
+        d = DynamicDidDefinition()
+        d.add(source_did=src, position=pos, memorysize=size)
+        d.add(source_did=src2, position=pos2, memorysize=size2)
+        return c.dynamically_define_did(did, d)
+    E = [('src', 'Z'), ('pos', 'Z'), ('size', 'Z')]
+    L.append(dict(name='fn_define_by_did_1_request', params=[('did', 'Z')] + E, result='Y', call=request(define1)))
+    L.append(dict(name='fn_define_by_did_2_request', params=[('did', 'Z')] + E + [('src2', 'Z'), ('pos2', 'Z'), ('size2', 'Z')], result='Y', call=request(define2)))
     P = [('did', 'Z')]
     call = lambda c, did: c.clear_dynamically_defined_did(did)
     obs = lambda r: [r.service_data.subfunction_echo, opt(r.service_data.did_echo)]
@@ -814,7 +835,10 @@ def files(u):
             ('Fn_DidInt.v', 'udsoncan/client.py (read_data_by_identifier), services/ReadDataByIdentifier.py (interpret_response), common/dids.py',
              lambda u: [sp for sp in did_services(u) if 'interpret' in sp['name']]),
             ('Fn_MemoryEcho.v', 'udsoncan/client.py (write_memory_by_address), services/WriteMemoryByAddress.py, common/MemoryLocation.py', memory_echo),
-            ('Fn_More.v', 'udsoncan/client.py (read_memory_by_address, request_transfer_exit, clear_dynamically_defined_did) and their services', more_services),
+            ('Fn_More.v', 'udsoncan/client.py (read_memory_by_address, request_transfer_exit, clear_dynamically_defined_did) and their services',
+             lambda u: [sp for sp in more_services(u) if not any(k in sp['name'] for k in ('load', 'define'))]),
+            ('Fn_More2.v', 'udsoncan/client.py (request_download, request_upload, dynamically_define_did by source DID) and their services',
+             lambda u: [sp for sp in more_services(u) if any(k in sp['name'] for k in ('load', 'define'))]),
             ('Fn_Unlock.v', 'udsoncan/client.py (unlock_security_access, request_seed, send_key; send_request replaced by two scripted replies)', unlock),
             ('Fn_SendRequest.v', 'udsoncan/client.py (send_request, on a symbolic clock)',
              lambda u: [sp for sp in send_request(u) if not any(k in sp['name'] for k in CTX_KINDS)]),
